@@ -228,6 +228,9 @@ func probeDecode(o *Out, data []byte) {
 	nodes, errPath := ajson.JSONPath(data, "$")
 	if (errSafe == nil) != valid || (errPath == nil) != valid || (valid && len(nodes) != 1) {
 		o.Fail("C01", "entrypoints", "UnmarshalSafe / JSONPath(data, \"$\") disagree with Unmarshal", hexIn, fmt.Sprint(valid), fmt.Sprint(errSafe == nil, errPath == nil, len(nodes)))
+	} else if err != nil && (errStr(err) != errStr(errSafe) || errStr(err) != errStr(errPath)) {
+		// the same text is rejected with the same error (kind, offset into the caller's text, byte) through every entry point
+		o.Fail("C01", "entrypoints", "UnmarshalSafe / JSONPath(data, \"$\") report another error than Unmarshal", hexIn, errStr(err), errStr(errSafe)+" / "+errStr(errPath))
 	}
 	if err != nil {
 		if root != nil {
@@ -254,6 +257,32 @@ func probeDecode(o *Out, data []byte) {
 		}
 		return
 	}
+	// C18, second clause: a tree from UnmarshalSafe does not depend on the caller's slice any more. Parse a private copy that
+	// has spare capacity (append-style clone idioms keep the backing array when there is room), overwrite every byte of it
+	// (and of the spare capacity), then read the tree.
+	{
+		o.Check("C18", "safe-independent")
+		buf := make([]byte, len(data), len(data)+16)
+		copy(buf, data)
+		if safeRoot, serr := ajson.UnmarshalSafe(buf); serr == nil {
+			full := buf[:cap(buf)]
+			for i := range full {
+				full[i] = 0xFF
+			}
+			trimmed := bytes.Trim(data, jsonWs)
+			if !bytes.Equal(safeRoot.Source(), trimmed) {
+				o.Fail("C18", "safe-independent", "after the caller overwrote its slice, Source() of a tree from UnmarshalSafe changed", hexIn, hexOrDash(trimmed), hexOrDash(safeRoot.Source()))
+			} else if out, merr := ajson.Marshal(safeRoot); merr != nil || !bytes.Equal(out, trimmed) {
+				o.Fail("C18", "safe-independent", "after the caller overwrote its slice, Marshal of a tree from UnmarshalSafe changed", hexIn, hexOrDash(trimmed), fmt.Sprint(hexOrDash(out), merr))
+			} else {
+				v1, e1 := root.Unpack()
+				v2, e2 := safeRoot.Unpack()
+				if (e1 == nil) != (e2 == nil) || (e1 == nil && canonValue(v1) != canonValue(v2)) {
+					o.Fail("C18", "safe-independent", "after the caller overwrote its slice, the values of a tree from UnmarshalSafe changed", hexIn, canonValueOrErr(v1, e1), canonValueOrErr(v2, e2))
+				}
+			}
+		}
+	}
 	// C02: values versus the independent decoder
 	want, _, rerr := refDecode(data)
 	if rerr != nil {
@@ -261,6 +290,15 @@ func probeDecode(o *Out, data []byte) {
 	}
 	o.Check("C02", "value-vs-encoding/json")
 	compareValues(o, root, want, hexIn, "$")
+	// "whenever read": the second read (now from the filled cache cells) says the same, and so does Unpack
+	compareValues(o, root, want, hexIn, "(second read) $")
+	if v, err := root.Unpack(); err == nil {
+		if wc := canonValue(want); !strings.Contains(wc, "#7ff0000000000000") && !strings.Contains(wc, "#fff0000000000000") && canonValue(v) != wc {
+			o.Fail("C02", "value-vs-encoding/json", "Unpack after the getters differs from the denoted value", hexIn, wc, canonValue(v))
+		}
+	} else if wc := canonValue(want); !strings.Contains(wc, "#7ff0000000000000") && !strings.Contains(wc, "#fff0000000000000") {
+		o.Fail("C02", "value-vs-encoding/json", "Unpack fails on a document without out-of-range numbers", hexIn, "ok", err.Error())
+	}
 	// C03: spans
 	o.Check("C03", "spans")
 	trimmed := bytes.Trim(data, jsonWs)
@@ -653,6 +691,8 @@ var decodeCorpus = []string{
 	`01`, `1.`, `-`, `1e`, `1e+`, `tru`, `nul`, `"abc`, `[1,]`, `{"a":1,}`, `{"a"}`, `{"a":}`, `[1 2]`, `{"a" 1}`, `"\x"`, `"\u12G4"`,
 	"\"a\x01b\"", `1 x`, `{1:2}`, `[`, `{`, `]`, `}`, `,`, `:`, `[}`, `{]`, `[[]]`, `[[],[]]`, `{"a":[],"b":{}}`, `  `, ``,
 	`"\/\b\f\n\r\t\"\\"`, `[0e0,0E0,0e+0,0e-0,0.0,-0.0e-0]`, `2.2250738585072011e-308`,
+	// only SP HT LF CR are white space: other "spaces" around a value make the text invalid, at every entry point
+	"\v[1]", "[1]\f", "\f{\"a\":1}\v", "\xc2\xa0true", "0\xc2\x85", "\xef\xbb\xbf[]", "[1]\x00", "\x00[1]", " \n ]", "\t\r\n x", " [1] ]", "  {\"a\" 1}",
 }
 
 // ---------------------------------------------------------------------------------------------
